@@ -116,7 +116,9 @@ impl Grid {
             h.push(("Content-Type", "multipart/form-data; boundary=XB"));
             body = corpus::MULTIPART_BODY;
         }
-        drive::request_bytes(&self.method, &self.target, "HTTP/1.1", &h, body)
+        // special "v:<token>": the request line names another protocol version
+        let version = self.special.strip_prefix("v:").unwrap_or("HTTP/1.1");
+        drive::request_bytes(&self.method, &self.target, version, &h, body)
     }
 }
 
@@ -225,6 +227,17 @@ pub fn run(ctx: &mut Ctx) {
                                 let g = Grid { mode: mode.to_string(), entry, method: method.to_string(), target: target.to_string(), origin: origin.map(|s| s.to_string()), preflight: preflight.to_string(), range: range.map(|s| s.to_string()), special: String::new() };
                                 grid_case(ctx, g);
                             }
+                        }
+                    }
+                }
+            }
+            // every version token the parser accepts (and two it may or may not), all methods and targets
+            for version in ["HTTP/0.9", "HTTP/1.0", "HTTP/2.0", "http/1.0", "HTTP/1.2"] {
+                for method in GRID_METHODS {
+                    for target in GRID_TARGETS {
+                        for origin in GRID_ORIGINS.iter().take(2) {
+                            let g = Grid { mode: mode.to_string(), entry, method: method.to_string(), target: target.to_string(), origin: origin.map(|s| s.to_string()), preflight: "none".into(), range: None, special: format!("v:{}", version) };
+                            grid_case(ctx, g);
                         }
                     }
                 }
